@@ -215,6 +215,107 @@ Proof.
     rewrite He, andb_false_r. reflexivity.
 Qed.
 
+(* ---- the same with a constant bound on the fuel: the fuel counts the nesting
+   of the recognisers, not the characters (an array that is the left neighbour
+   of a later range is re-read with the fuel of the text after it) ---------------------- *)
+Lemma rep_skip2 n v t rest fuel ll fe ib :
+  1 <= n < 2 ^ 31 -> tokof dec2f dec2d v t -> rest_ok rest -> (2 <= fuel)%nat ->
+  skip_next dec2f dec2d fuel ((dec_nat n ++ 120 :: t) ++ rest) ll fe ib = Ok (rest, 2, 45).
+Proof.
+  intros Hn (Hrd & (c & r & -> & Hc) & Hsc) Hr Hl.
+  destruct (dec_nat_hd n ltac:(lia)) as (d & tl & E & Hd).
+  pose proof (dec_nat_digits n ltac:(lia)) as Hds. rewrite E in Hds.
+  assert (Htl : Forall (fun c => isdigit c = true) tl) by now inversion Hds.
+  assert (Hmult : is_range_multiplier ((dec_nat n ++ 120 :: c :: r) ++ rest) = true).
+  { rewrite E. cbn [app is_range_multiplier]. rewrite <- app_assoc.
+    rewrite dropwhile_app by (try assumption; reflexivity). cbn [app]. rewrite hd0_cons.
+    replace (isdigit (48 + d)) with true by (symmetry; apply isdigit_spec; lia).
+    now replace (48 + d =? 48) with false by lia. }
+  assert (Hfc : first_class (48 + d) = FC_other) by (apply first_class_num; lia).
+  destruct (Hrd rest Hr) as [Hs Hsn].
+  destruct fuel as [|[|f]]; try lia. remember (S f) as f1 eqn:Ef. cbn [skip_next].
+  unfold skip_core. rewrite Hmult. rewrite E at 1. cbn [app]. rewrite Hfc.
+  unfold after_x. rewrite <- app_assoc. cbn [app].
+  rewrite E at 1. cbn [app].
+  change ((48 + d) :: tl ++ 120 :: c :: r ++ rest) with (((48 + d) :: tl) ++ 120 :: (c :: r) ++ rest).
+  rewrite dropwhile_notx by (constructor; [apply isdigit_spec; lia|assumption]).
+  cbn [skipn]. subst f1. rewrite Hs. destruct Hr as [_ He]. rewrite He, andb_false_r. reflexivity.
+Qed.
+
+Lemma item_skip_t2 p it rest recent fuel ib :
+  item_ok p it -> rest_ok rest -> recentrel p recent (item_text it ++ rest) ->
+  (2 <= fuel)%nat ->
+  skip_next dec2f dec2d fuel (item_text it ++ rest) recent true ib
+  = Ok (rest, Z.of_nat (length (item_slots it)), ity it).
+Proof.
+  intros Hok Hr Hrec Hf. destruct it as [v t|n v t|k b d m last sp]; cbn [item_ok item_text item_slots ity] in *.
+  - destruct Hok as [(Hrd & (c & r & -> & _) & _) _]. destruct fuel; [lia|].
+    apply (Hrd rest Hr).
+  - destruct Hok as (Hn & Htk & _). now apply (rep_skip2 n v t).
+  - destruct Hok as (Hrun & Hsp & Hctx).
+    destruct fuel as [|[|f]]; try lia.
+    destruct (chk_recent dec2f dec2d k b d m last sp rest p recent f ib Hrun Hsp Hr Hrec Hctx) as (u & la & Hchk & Hdis).
+    exact (skip_tail dec2f dec2d k b d m last sp rest f recent ib u la Hrun Hsp Hr Hchk Hdis).
+Qed.
+
+Lemma skip_array_iseq2 its T p : iseq p its T -> its <> [] ->
+  forall R0 fuel f recent k aty, rest_ok R0 -> hd0 R0 = 93 -> recentrel p recent (T ++ R0) ->
+  atys_ok aty its -> (length its < fuel)%nat -> (2 <= f)%nat ->
+  skip_array_loop (skip_next dec2f dec2d f) fuel (T ++ R0) recent k aty
+  = Ok (R0, k + Z.of_nat (length (islots its))).
+Proof.
+  induction 1 as [p|p it Hok|p it sep it' its T Hok Hsep HL IH]; intros Hne R0 fuel f recent k aty HR H93 Hrec Hty Hfu Hf;
+    [congruence| |].
+  - destruct fuel as [|[|fuel]]; try (cbn [length] in Hfu; lia).
+    destruct (item_first dec2f dec2d _ _ Hok) as (c & r & E & Hc).
+    destruct Hc as (H0 & H47 & H37 & Hsp & H46 & H40 & H93c).
+    assert (Hh : hd0 (item_text it ++ R0) = c) by (rewrite E; reflexivity).
+    remember (S fuel) as f1. cbn [skip_array_loop]. rewrite Hh.
+    replace ((c =? 0) || (c =? 93)) with false by lia.
+    rewrite (item_skip_t2 p it R0 recent f true Hok HR Hrec Hf).
+    destruct Hty as [Hty _]. rewrite Hty.
+    destruct R0 as [|c0 r0]; [discriminate|]. rewrite hd0_cons in H93. subst c0.
+    rewrite skip_ws_nonspace by reflexivity. subst f1. cbn [skip_array_loop]. rewrite hd0_cons. cbn [Z.eqb orb].
+    replace (93 =? 0) with false by reflexivity. cbn [orb]. replace (93 =? 93) with true by reflexivity.
+    f_equal. f_equal. unfold islots. cbn [map concat]. now rewrite app_nil_r.
+  - destruct fuel; [lia|].
+    destruct (item_first dec2f dec2d _ _ Hok) as (c & r & E & Hc).
+    destruct (iseq_first _ _ _ _ _ _ HL) as (c' & r' & -> & Hc').
+    pose proof (rest_ok_sep sep c' (r' ++ R0) Hsep Hc') as Hro.
+    destruct Hc as (H0 & H47 & H37 & Hsp & H46 & H40 & H93c).
+    rewrite <- !app_assoc. rewrite <- !app_assoc in Hrec. cbn [app] in *.
+    assert (Hh : forall X, hd0 (item_text it ++ X) = c) by (intros; rewrite E; reflexivity).
+    cbn [skip_array_loop]. rewrite Hh.
+    replace ((c =? 0) || (c =? 93)) with false by lia.
+    rewrite (item_skip_t2 p it _ recent f true Hok Hro Hrec Hf).
+    destruct Hty as [Hty Hty2]. rewrite Hty.
+    destruct Hc' as (H0' & H47' & H37' & Hsp' & H46' & H40').
+    rewrite skip_ws_sep by (try apply Hsep; now rewrite hd0_cons).
+    change (c' :: r' ++ R0) with ((c' :: r') ++ R0).
+    rewrite (IH ltac:(discriminate) R0 fuel f _ _ _ HR H93).
+    + f_equal. f_equal. unfold islots. cbn [map concat]. rewrite !app_length. lia.
+    + cbn [ListProofs.recentrel]. exists p, it, sep. repeat split; try assumption; apply Hsep.
+    + exact Hty2.
+    + cbn [length] in *. lia.
+    + exact Hf.
+Qed.
+
+Lemma array_skip2 its T : iseq None its T -> its <> [] -> atys_ok 0 its ->
+  forall rest, rest_ok rest ->
+  forall f ll fe ib, (2 <= f)%nat ->
+     skip_next dec2f dec2d (S f) (91 :: T ++ 93 :: rest) ll fe ib
+     = Ok (rest, 1 + Z.of_nat (length (islots its)), 97).
+Proof.
+  intros HL Hne Hty rest Hr f ll fe ib H. destruct its as [|it its]; [congruence|].
+  pose proof (iseq_len _ _ _ HL) as Hlen. destruct Hr as [Hr0 He].
+  cbn [skip_next]. unfold skip_core. change (first_class 91) with FC_lb. cbv beta iota.
+  cbn [skipn]. rewrite (iseq_skip_ws _ _ _ _ _ HL).
+  rewrite (skip_array_iseq2 _ _ _ HL Hne (93 :: rest) _ f None 1 0 (rest_ok_close rest) eq_refl eq_refl Hty);
+    [|cbn [length]; rewrite app_length; cbn [length] in *; lia|exact H].
+  rewrite hd0_cons. replace (93 =? 93) with true by reflexivity. cbn [skipn].
+  rewrite He, andb_false_r. reflexivity.
+Qed.
+
 (* the empty array *)
 Lemma empty_array_reads rest : rest_ok rest ->
   (forall f ll fe ib, skip_next dec2f dec2d (S f) (91 :: 93 :: rest) ll fe ib = Ok (rest, 1, 97)) /\
@@ -248,6 +349,30 @@ Notation iter_text := (iter_text dec2f dec2d).
 Notation iseq_from := (iseq_from dec2f dec2d).
 
 (* one iteration, compression on or off *)
+Lemma print_iter_any_sa a0 rest size prev t tmp cols cols1 bb cv :
+  goodc o zf zd a0 -> Forall (goodca o zf zd) rest -> Z.of_nat (length (a0 :: rest)) < 2 ^ 31 ->
+  (forall p, prev = Some p -> scalar p) ->
+  convert_to_range o (a0 :: rest) size = cv -> cv <> CUnmod ->
+  print_arg_val o (match cv with CYes c _ => c | _ => a0 :: rest end) cols prev = Some (t, tmp, cols1, bb) ->
+  exists its inc,
+    bb = false /\ tmp = len t /\
+    Z.of_nat inc = (match cv with CYes _ kk => kk | _ => next_arg_offset (a0 :: rest) end) /\
+    (1 <= inc <= length (a0 :: rest))%nat /\
+    iorig its = firstn inc (a0 :: rest) /\ iter_text prev its t /\
+    nth_error (a0 :: rest) (inc - 1) = ilast its.
+Proof.
+  intros Hg0 Hgr Hlen Hprev Hcv Hnu Hp. destruct (compress o) eqn:Ec.
+  - exact (print_iter_sa dec2f dec2d o Ec zf zd Hz a0 rest size prev t tmp cols cols1 bb cv Hg0 Hgr Hlen Hprev Hcv Hnu Hp).
+  - unfold convert_to_range in Hcv. rewrite Ec in Hcv. cbn [negb] in Hcv. rewrite !orb_true_r in Hcv. subst cv.
+    destruct (goodc_facts o zf zd a0 Hg0) as (Hs0 & _ & _).
+    unfold print_arg_val in Hp. rewrite (pav_scalar o a0 rest cols prev 5 Hs0) in Hp.
+    destruct (print_scalar o a0 cols) as [[[t' w'] c']|] eqn:Eps; [|discriminate]. inversion Hp; subst.
+    destruct (goodc_tok dec2f dec2d o zf zd a0 cols t tmp cols1 Hg0 Eps) as (Htk & Hnd & Hw).
+    exists [IVal a0 t], 1%nat. split; [reflexivity|]. split; [exact Hw|].
+    split; [destruct a0; cbn in Hs0; try contradiction; reflexivity|]. split; [cbn [length]; lia|].
+    split; [reflexivity|]. split; [split; [reflexivity|split; assumption]|reflexivity].
+Qed.
+
 Lemma print_iter_any a0 rest size prev t tmp cols cols1 bb cv :
   Forall (goodc o zf zd) (a0 :: rest) -> Z.of_nat (length (a0 :: rest)) < 2 ^ 31 ->
   (forall p, prev = Some p -> scalar p) ->
@@ -260,16 +385,8 @@ Lemma print_iter_any a0 rest size prev t tmp cols cols1 bb cv :
     iorig its = firstn inc (a0 :: rest) /\ iter_text prev its t /\
     nth_error (a0 :: rest) (inc - 1) = ilast its.
 Proof.
-  intros Hg Hlen Hprev Hcv Hnu Hp. destruct (compress o) eqn:Ec.
-  - exact (print_iter dec2f dec2d o Ec zf zd Hz a0 rest size prev t tmp cols cols1 bb cv Hg Hlen Hprev Hcv Hnu Hp).
-  - unfold convert_to_range in Hcv. rewrite Ec in Hcv. cbn [negb] in Hcv. rewrite !orb_true_r in Hcv. subst cv.
-    pose proof (Forall_inv Hg) as Hg0. destruct (goodc_facts o zf zd a0 Hg0) as (Hs0 & _ & _).
-    unfold print_arg_val in Hp. rewrite (pav_scalar o a0 rest cols prev 5 Hs0) in Hp.
-    destruct (print_scalar o a0 cols) as [[[t' w'] c']|] eqn:Eps; [|discriminate]. inversion Hp; subst.
-    destruct (goodc_tok dec2f dec2d o zf zd a0 cols t tmp cols1 Hg0 Eps) as (Htk & Hnd & Hw).
-    exists [IVal a0 t], 1%nat. split; [reflexivity|]. split; [exact Hw|].
-    split; [destruct a0; cbn in Hs0; try contradiction; reflexivity|]. split; [cbn [length]; lia|].
-    split; [reflexivity|]. split; [split; [reflexivity|split; assumption]|reflexivity].
+  intros Hg. apply print_iter_any_sa; [exact (Forall_inv Hg)|].
+  eapply Forall_impl; [|exact (Forall_inv_tail Hg)]. intros a Ha. now left.
 Qed.
 
 (* what one iteration emits joins what the later ones emit *)
